@@ -1,3 +1,572 @@
 import GnpyModel
-/- Property theorems for C13 (only the property theorems and their non-vacuity examples live here;
-   helper lemmas go to GnpyProofs/Lemmas). -/
+import GnpyProofs.Lemmas.Db
+import GnpyProofs.Lemmas.RoundHE
+import GnpyProofs.Lemmas.Verdict
+import GnpyProofs.Lemmas.VerdictDiscrete
+/- Property theorems for C13 — a service is accepted exactly when its worst channel clears the mode's threshold.
+   Model: GnpyModel/Verdict.lean (+ RoundHE.lean).  Numeric statements over ℝ, the mode loop over Int/List. -/
+namespace Gnpy.Verdict
+open Gnpy.HE
+
+/-! ### receiver figures: transmitter and add/drop noise counted exactly once, from the raw values -/
+
+/-- **update_snr formula.** With at least one contribution present, each receiver figure is, in the linear domain,
+the line-only (raw) figure plus the sum of the listed contributions — every one exactly once — scaled to the
+figure's bandwidth (`baud/12.5 GHz` for the in-band figures, 1 for the 0.1 nm figures). -/
+theorem updateSnr_formula (r : Rx ℝ) (args : List (Option ℝ)) (hb : 0 < r.baud) (hS : 0 < linSum args) :
+    db2lin (-(updateSnr r args).snr01) = db2lin (-r.rawSnr01) + linSum args ∧
+    db2lin (-(updateSnr r args).osnrAse01) = db2lin (-r.rawOsnrAse01) + linSum args ∧
+    db2lin (-(updateSnr r args).snr) = db2lin (-r.rawSnr) + r.baud / bwRef * linSum args ∧
+    db2lin (-(updateSnr r args).osnrAse) = db2lin (-r.rawOsnrAse) + r.baud / bwRef * linSum args := by
+  have hbr := bwRef_pos
+  have h1 : (bwRef : ℝ) / bwRef = 1 := div_self (ne_of_gt hbr)
+  simp only [updateSnr]
+  refine ⟨?_, ?_, ?_, ?_⟩
+  · rw [snrSum_lin _ _ _ hbr, snrAdded_lin _ hS, h1, one_mul]
+  · rw [snrSum_lin _ _ _ hbr, snrAdded_lin _ hS, h1, one_mul]
+  · rw [snrSum_lin _ _ _ hb, snrAdded_lin _ hS]
+  · rw [snrSum_lin _ _ _ hb, snrAdded_lin _ hS]
+
+/-- `None` arguments are ignored; the present ones add up, each once, in any position -/
+theorem linSum_spec (a b : List (Option ℝ)) (v : ℝ) :
+    linSum (a ++ none :: b) = linSum (a ++ b) ∧ linSum (a ++ some v :: b) = linSum (a ++ b) + db2lin (-v) := by
+  refine ⟨by simp [linSum_append, linSum], ?_⟩
+  simp only [linSum_append, linSum]; ring
+
+/-- an update never touches the raw figures -/
+theorem updateSnr_raw (r : Rx ℝ) (args : List (Option ℝ)) :
+    (updateSnr r args).rawSnr01 = r.rawSnr01 ∧ (updateSnr r args).rawSnr = r.rawSnr ∧
+    (updateSnr r args).rawOsnrAse01 = r.rawOsnrAse01 ∧ (updateSnr r args).rawOsnrAse = r.rawOsnrAse ∧
+    (updateSnr r args).baud = r.baud := by
+  simp [updateSnr]
+
+/-- two successive updates = the second alone -/
+theorem updateSnr_twice (r : Rx ℝ) (a b : List (Option ℝ)) : updateSnr (updateSnr r a) b = updateSnr r b := by
+  simp [updateSnr]
+
+/-- **history-free.** However many times the receiver figures were recomputed before (successive modes), the state
+after the last `update_snr` is the state that call alone produces from the propagated receiver. -/
+theorem updateSnr_history_free (r : Rx ℝ) (calls : List (List (Option ℝ))) (last : List (Option ℝ)) :
+    updateSnrSeq r (calls ++ [last]) = updateSnr r last := by
+  unfold updateSnrSeq
+  rw [List.foldl_append]
+  simp only [List.foldl_cons, List.foldl_nil]
+  induction calls using List.reverseRecOn with
+  | nil => rfl
+  | append_singleton xs x ih =>
+    rw [List.foldl_append]; simp only [List.foldl_cons, List.foldl_nil]
+    rw [updateSnr_twice]; exact ih
+
+/-! ### the list of contributions: transmitter once, every ROADM crossing once -/
+
+theorem roadmOsnr_length (path : List (PathEl ℝ)) :
+    (roadmOsnr path).length = (path.filter (fun e => match e with | .roadm _ => true | .other => false)).length := by
+  induction path with
+  | nil => rfl
+  | cons e rest ih => cases e <;> simp [roadmOsnr, ih]
+
+/-- **tx and add/drop once (fixed mode).** `propagate` hands the receiver one entry per ROADM crossing, in path
+order, followed by exactly one transmitter entry; in the linear sum the transmitter term appears once. -/
+theorem tx_and_adddrop_once (path : List (PathEl ℝ)) (tx : ℝ) :
+    propagateArgs path tx = roadmOsnr path ++ [some tx] ∧
+    (propagateArgs path tx).length = (roadmOsnr path).length + 1 ∧
+    linSum (propagateArgs path tx) = linSum (roadmOsnr path) + db2lin (-tx) := by
+  refine ⟨rfl, by simp [propagateArgs], ?_⟩
+  simp [propagateArgs, linSum_append, linSum]
+
+/-- **tx once per iteration of the mode loop**, for any number of iterations: iteration `k` hands the receiver the
+ROADM entries and the transmitter OSNR of mode `k` only — the append/delete pair leaves the list as it was. -/
+theorem loopArgs_spec (st : List (Option ℝ)) (txs : List ℝ) :
+    loopArgs st txs = txs.map (fun tx => st ++ [some tx]) := by
+  induction txs generalizing st with
+  | nil => rfl
+  | cons tx rest ih =>
+    simp only [loopArgs, loopStep, List.map_cons, List.dropLast_concat]
+    rw [ih]
+
+/-! ### penalties -/
+
+/-- below the first boundary: blocking (infinite) penalty -/
+theorem penalty_below_blocks (x a fa : ℝ) (rest : List (ℝ × ℝ)) (h : x < a) :
+    interpPenalty x ((a, fa) :: rest) = Pen.inf := by
+  simp [interpPenalty, h]
+
+theorem interpFrom_above (x : ℝ) (t : List (ℝ × ℝ)) (h : ∀ p ∈ t, p.1 < x) : interpFrom x t = Pen.inf := by
+  match t with
+  | [] => rfl
+  | [(a, fa)] =>
+    have := h (a, fa) (by simp)
+    simp only [interpFrom]; rw [if_pos this]
+  | (a, fa) :: (b, fb) :: rest =>
+    have hb : ¬ x < b := not_lt.2 (le_of_lt (h (b, fb) (by simp)))
+    simp only [interpFrom]; rw [if_neg hb]
+    exact interpFrom_above x ((b, fb) :: rest) (fun p hp => h p (List.mem_cons_of_mem _ hp))
+
+/-- **an impairment outside the mode's penalty table always blocks** (above every boundary) -/
+theorem penalty_above_blocks (x : ℝ) (t : List (ℝ × ℝ)) (h : ∀ p ∈ t, p.1 < x) : interpPenalty x t = Pen.inf := by
+  match t with
+  | [] => rfl
+  | (a, fa) :: rest =>
+    have ha : ¬ x < a := not_lt.2 (le_of_lt (h (a, fa) (by simp)))
+    simp only [interpPenalty]; rw [if_neg ha]
+    exact interpFrom_above x _ h
+
+theorem interpFrom_inside (x : ℝ) (t : List (ℝ × ℝ)) (hs : t.Pairwise (fun p q => p.1 ≤ q.1))
+    (hhead : ∀ p, t.head? = some p → p.1 ≤ x) (hex : ∃ p ∈ t, x ≤ p.1) : ∃ v, interpFrom x t = Pen.fin v := by
+  match t with
+  | [] => obtain ⟨p, hp, _⟩ := hex; simp at hp
+  | [(a, fa)] =>
+    obtain ⟨p, hp, hx⟩ := hex
+    simp only [List.mem_singleton] at hp; subst hp
+    simp only [interpFrom]; rw [if_neg (not_lt.2 hx)]; exact ⟨fa, rfl⟩
+  | (a, fa) :: (b, fb) :: rest =>
+    simp only [interpFrom]
+    by_cases hxb : x < b
+    · rw [if_pos hxb]; split <;> exact ⟨_, rfl⟩
+    · rw [if_neg hxb]
+      have hbx : b ≤ x := not_lt.1 hxb
+      rw [List.pairwise_cons] at hs
+      apply interpFrom_inside x ((b, fb) :: rest) hs.2
+      · intro p hp; simp only [List.head?_cons, Option.some.injEq] at hp; subst hp; exact hbx
+      · obtain ⟨p, hp, hx⟩ := hex
+        rcases List.mem_cons.1 hp with hp | hp
+        · subst hp
+          have hab : a ≤ b := hs.1 (b, fb) (by simp)
+          exact ⟨(b, fb), by simp, by simp only at hx ⊢; linarith⟩
+        · exact ⟨p, hp, hx⟩
+
+/-- inside the (ascending) table the penalty is finite -/
+theorem penalty_inside_finite (x : ℝ) (t : List (ℝ × ℝ)) (hs : t.Pairwise (fun p q => p.1 ≤ q.1))
+    (hlo : ∀ p, t.head? = some p → p.1 ≤ x) (hhi : ∃ p ∈ t, x ≤ p.1) : ∃ v, interpPenalty x t = Pen.fin v := by
+  match t with
+  | [] => obtain ⟨p, hp, _⟩ := hhi; simp at hp
+  | (a, fa) :: rest =>
+    have ha : ¬ x < a := not_lt.2 (hlo (a, fa) rfl)
+    simp only [interpPenalty]; rw [if_neg ha]
+    exact interpFrom_inside x _ hs hlo hhi
+
+/-- between two consecutive boundaries the penalty is the linear interpolation; on a boundary it is the tabulated
+value -/
+theorem penalty_segment (x a fa b fb : ℝ) (rest : List (ℝ × ℝ)) (h1 : a ≤ x) (h2 : x < b) :
+    interpPenalty x ((a, fa) :: (b, fb) :: rest) =
+      if a < x then Pen.fin ((fb - fa) / (b - a) * (x - a) + fa) else Pen.fin fa := by
+  simp only [interpPenalty, interpFrom]
+  rw [if_neg (not_lt.2 h1), if_pos h2]
+
+theorem foldl_add_inf (ps : List (Pen ℝ)) : ps.foldl Pen.add Pen.inf = Pen.inf := by
+  induction ps with
+  | nil => rfl
+  | cons p rest ih => simpa [List.foldl_cons, Pen.add] using ih
+
+theorem foldl_add_mem_inf (ps : List (Pen ℝ)) (p : Pen ℝ) (h : Pen.inf ∈ ps) : ps.foldl Pen.add p = Pen.inf := by
+  induction ps generalizing p with
+  | nil => simp at h
+  | cons q rest ih =>
+    rcases List.mem_cons.1 h with h | h
+    · subst h
+      have : Pen.add p Pen.inf = Pen.inf := by cases p <;> rfl
+      simp only [List.foldl_cons, this]; exact foldl_add_inf rest
+    · simp only [List.foldl_cons]; exact ih _ h
+
+/-- one infinite penalty makes the total infinite -/
+theorem totalPenalty_inf (ps : List (Pen ℝ)) (h : Pen.inf ∈ ps) : totalPenalty ps = Pen.inf := by
+  match ps with
+  | [] => simp at h
+  | p :: rest =>
+    simp only [totalPenalty]
+    rcases List.mem_cons.1 h with h | h
+    · subst h; exact foldl_add_inf rest
+    · exact foldl_add_mem_inf rest p h
+
+theorem minMetric_none_of_mem (ms : List (Option ℝ)) (h : none ∈ ms) : minMetric ms = none := by
+  match ms with
+  | [] => rfl
+  | [m] => simp only [List.mem_singleton] at h; subst h; rfl
+  | m :: m' :: rest =>
+    simp only [minMetric]
+    rcases List.mem_cons.1 h with h | h
+    · subst h; rfl
+    · have := minMetric_none_of_mem (m' :: rest) h
+      rw [this]; cases m <;> rfl
+
+/-- **outside the table ⇒ blocked**: a channel whose total penalty is infinite makes the request infeasible under
+both verdicts, whatever the GSNR and the threshold -/
+theorem penalty_outside_blocks (snrs : List ℝ) (pens : List (Pen ℝ)) (osnr margin : ℝ)
+    (hlen : snrs.length = pens.length) (h : Pen.inf ∈ pens) :
+    passFixed (minMetric ((snrs.zip pens).map (fun x => metric x.1 x.2))) osnr margin = false ∧
+    passAuto (minMetric ((snrs.zip pens).map (fun x => metric x.1 x.2))) osnr margin = false := by
+  have : none ∈ (snrs.zip pens).map (fun x => metric x.1 x.2) := by
+    obtain ⟨i, hi, hpi⟩ := List.getElem_of_mem h
+    have hi' : i < snrs.length := by omega
+    refine List.mem_map.2 ⟨(snrs[i], pens[i]), ?_, by simp [metric, hpi]⟩
+    rw [List.mem_iff_getElem]
+    exact ⟨i, by simp [hi, hi'], by simp⟩
+  rw [minMetric_none_of_mem _ this]
+  exact ⟨rfl, rfl⟩
+
+/-- the worst channel: `minMetric` returns a member that is ≤ every channel's metric -/
+theorem minMetric_spec (ms : List (Option ℝ)) (v : ℝ) (h : minMetric ms = some v) :
+    some v ∈ ms ∧ ∀ m ∈ ms, ∃ w, m = some w ∧ v ≤ w := by
+  match ms with
+  | [] => simp [minMetric] at h
+  | [m] => simp only [minMetric] at h; subst h; simp
+  | m :: m' :: rest =>
+    simp only [minMetric] at h
+    cases hm : m with
+    | none => rw [hm] at h; simp at h
+    | some a =>
+      cases hr : minMetric (m' :: rest) with
+      | none => rw [hm, hr] at h; simp at h
+      | some b =>
+        rw [hm, hr] at h
+        obtain ⟨hb1, hb2⟩ := minMetric_spec (m' :: rest) b hr
+        simp only at h
+        split at h
+        · rename_i hlt
+          simp only [Option.some.injEq] at h; subst h
+          refine ⟨List.mem_cons_of_mem _ hb1, ?_⟩
+          intro x hx
+          rcases List.mem_cons.1 hx with hx | hx
+          · subst hx; exact ⟨a, rfl, le_of_lt hlt⟩
+          · exact hb2 x hx
+        · rename_i hnlt
+          simp only [Option.some.injEq] at h; subst h
+          refine ⟨List.mem_cons_self, ?_⟩
+          intro x hx
+          rcases List.mem_cons.1 hx with hx | hx
+          · subst hx; exact ⟨_, rfl, le_refl _⟩
+          · obtain ⟨w, hw, hbw⟩ := hb2 x hx
+            exact ⟨w, hw, le_trans (not_lt.1 hnlt) hbw⟩
+
+/-! ### penalty tables normalised at load -/
+
+theorem insertAsc_perm (e : ℝ × ℝ) (l : List (ℝ × ℝ)) : (insertAsc e l).Perm (e :: l) := by
+  induction l with
+  | nil => simp [insertAsc]
+  | cons y ys ih =>
+    simp only [insertAsc]
+    split
+    · exact (List.Perm.cons y ih).trans (List.Perm.swap e y ys)
+    · exact List.Perm.refl _
+
+theorem sortAsc_perm (l : List (ℝ × ℝ)) : (sortAsc l).Perm l := by
+  induction l with
+  | nil => simp [sortAsc]
+  | cons e rest ih =>
+    simp only [sortAsc, List.foldr_cons]
+    exact (insertAsc_perm e _).trans (List.Perm.cons e ih)
+
+theorem insertAsc_sorted (e : ℝ × ℝ) (l : List (ℝ × ℝ)) (h : l.Pairwise (fun p q => p.1 ≤ q.1)) :
+    (insertAsc e l).Pairwise (fun p q => p.1 ≤ q.1) := by
+  induction l with
+  | nil => simp [insertAsc]
+  | cons y ys ih =>
+    rw [List.pairwise_cons] at h
+    simp only [insertAsc]
+    split
+    · rename_i hlt
+      rw [List.pairwise_cons]
+      refine ⟨?_, ih h.2⟩
+      intro b hb
+      rcases List.mem_cons.1 ((insertAsc_perm e ys).subset hb) with hb | hb
+      · subst hb; exact le_of_lt hlt
+      · exact h.1 b hb
+    · rename_i hnlt
+      have hle : e.1 ≤ y.1 := not_lt.1 hnlt
+      rw [List.pairwise_cons]
+      refine ⟨?_, List.pairwise_cons.2 h⟩
+      intro b hb
+      rcases List.mem_cons.1 hb with hb | hb
+      · subst hb; exact hle
+      · exact le_trans hle (h.1 b hb)
+
+theorem sortAsc_sorted (l : List (ℝ × ℝ)) : (sortAsc l).Pairwise (fun p q => p.1 ≤ q.1) := by
+  induction l with
+  | nil => simp [sortAsc]
+  | cons e rest ih =>
+    simp only [sortAsc, List.foldr_cons]
+    exact insertAsc_sorted e _ ih
+
+/-- **penalty tables are normalised at load**: the result is ascending in the boundary; it consists of exactly the
+library's entries, plus the point (0, 0) iff every boundary is positive — in which case (0, 0) is the first point. -/
+theorem penalty_normalised (entries : List (ℝ × ℝ)) :
+    (normalise entries).Pairwise (fun p q => p.1 ≤ q.1) ∧
+    ((∀ e ∈ entries, 0 < e.1) → (normalise entries).Perm ((0, 0) :: entries) ∧
+        (normalise entries).head? = some (0, 0)) ∧
+    ((∃ e ∈ entries, ¬ 0 < e.1) → (normalise entries).Perm entries) := by
+  refine ⟨?_, ?_, ?_⟩
+  · simp only [normalise]; exact sortAsc_sorted _
+  · intro hall
+    have hc : (entries.all fun e => decide ((0:ℝ) < e.1)) = true := by
+      rw [List.all_eq_true]; intro e he; simpa using hall e he
+    have hn : normalise entries = sortAsc ((0, 0) :: entries) := by
+      simp only [normalise, Nat.cast_zero, hc, if_true]
+    refine ⟨by rw [hn]; exact sortAsc_perm _, ?_⟩
+    rw [hn]
+    simp only [sortAsc, List.foldr_cons]
+    have hs : (List.foldr insertAsc [] entries) = sortAsc entries := rfl
+    rw [hs]
+    have hpos : ∀ y ∈ sortAsc entries, (0:ℝ) < y.1 := fun y hy => hall y ((sortAsc_perm entries).subset hy)
+    cases hl : sortAsc entries with
+    | nil => simp [insertAsc]
+    | cons y ys =>
+      have := hpos y (by rw [hl]; simp)
+      simp only [insertAsc]
+      rw [if_neg (not_lt.2 (le_of_lt this))]; rfl
+  · rintro ⟨e, he, hneg⟩
+    have hc : (entries.all fun e => decide ((0:ℝ) < e.1)) = false := by
+      rw [List.all_eq_false]; exact ⟨e, he, by simpa using hneg⟩
+    have hn : normalise entries = sortAsc entries := by
+      simp only [normalise, Nat.cast_zero, hc]; rfl
+    rw [hn]; exact sortAsc_perm _
+
+/-! ### the verdict -/
+
+/-- fixed mode: a direction passes iff its worst-channel metric exists (no infinite penalty) and, rounded to two
+decimals, is at least OSNR + margin -/
+theorem passFixed_iff (m : Option ℝ) (osnr margin : ℝ) :
+    passFixed m osnr margin = true ↔ ∃ v, m = some v ∧ osnr + margin ≤ round2 v := by
+  cases m with
+  | none => simp [passFixed]
+  | some v => simp [passFixed]
+
+/-- automatic selection: strictly above -/
+theorem passAuto_iff (m : Option ℝ) (osnr margin : ℝ) :
+    passAuto m osnr margin = true ↔ ∃ v, m = some v ∧ osnr + margin < round2 v := by
+  cases m with
+  | none => simp [passAuto]
+  | some v => simp [passAuto]
+
+/-- **verdict_iff (fixed mode, one direction).** For a threshold given with two decimals: the direction passes
+whenever the worst-channel metric is at least the threshold, and whenever it passes — unless the rounded metric
+equals the threshold exactly, the case the property does not judge — the worst-channel metric is above it. The two
+verdict flavours (`≥` fixed, `>` automatic) differ only in that unjudged case. -/
+theorem verdict_iff (v : ℝ) (k : ℤ) (osnr margin : ℝ) (hthr : osnr + margin = (k : ℝ) / 100) :
+    (osnr + margin ≤ v → passFixed (some v) osnr margin = true) ∧
+    (passFixed (some v) osnr margin = true → round2 v ≠ osnr + margin → osnr + margin < v) ∧
+    (round2 v ≠ osnr + margin → passAuto (some v) osnr margin = passFixed (some v) osnr margin) := by
+  refine ⟨?_, ?_, ?_⟩
+  · intro h
+    rw [passFixed_iff]
+    refine ⟨v, rfl, ?_⟩
+    have := round2_mono h
+    rw [hthr, round2_grid] at this
+    rw [hthr]; exact this
+  · intro hp hne
+    rw [passFixed_iff] at hp
+    obtain ⟨w, hw, hle⟩ := hp
+    simp only [Option.some.injEq] at hw; subst hw
+    by_contra hcon
+    have hvle : v ≤ osnr + margin := not_lt.1 hcon
+    have := round2_mono hvle
+    rw [hthr, round2_grid] at this
+    rw [hthr] at hle hne
+    exact hne (le_antisymm this hle)
+  · intro hne
+    simp only [passAuto, passFixed]
+    rcases lt_trichotomy (round2 v) (osnr + margin) with h | h | h
+    · simp [h, not_lt.2 (le_of_lt h)]
+    · exact absurd h hne
+    · simp [h, not_lt.2 (le_of_lt h)]
+
+/-- whatever the threshold: rounding moves the metric by at most 0.005 dB, so a direction whose worst channel is
+0.005 dB or more above the threshold passes, and one more than 0.005 dB below it fails -/
+theorem verdict_margin (v osnr margin : ℝ) :
+    (osnr + margin + 1 / 200 ≤ v → passFixed (some v) osnr margin = true) ∧
+    (v < osnr + margin - 1 / 200 → passFixed (some v) osnr margin = false) := by
+  have h := abs_round2_sub_le v
+  rw [abs_le] at h
+  constructor
+  · intro hv; rw [passFixed_iff]; exact ⟨v, rfl, by linarith [h.1]⟩
+  · intro hv
+    have : round2 v < osnr + margin := by linarith [h.2]
+    simp [passFixed, this]
+
+/-- **request-level verdict, fixed mode**: reported feasible iff the forward direction passes and, when
+bidirectional, the reverse direction passes too; otherwise MODE_NOT_FEASIBLE -/
+theorem fixedReason_spec (f b r : Bool) :
+    (fixedReason f b r = Reason.none ↔ (f = true ∧ (b = true → r = true))) ∧
+    (fixedReason f b r ≠ Reason.none → fixedReason f b r = Reason.modeNotFeasible) := by
+  cases f <;> cases b <;> cases r <;> simp [fixedReason]
+
+/-! ### automatic mode selection -/
+
+/-- what "feasible" means for a candidate: it passes on the propagation made with its own baud rate and offset -/
+def FeasOwn (feas : (Int × Int) → Mode → Bool) (m : Mode) : Prop := feas (own m) m = true
+
+/-- **selectMode_spec.** The mode returned by the (repaired) loop is a library mode that fits the spacing, is
+feasible on its own propagation — which is also the propagation whose figures are reported — and no feasible
+fitting mode has a higher baud rate, or the same baud rate and a higher bit rate. -/
+theorem selectMode_spec (feas : (Int × Int) → Mode → Bool) (modes : List Mode) (spacing : Int) (m : Mode)
+    (p : Int × Int) (h : selectMode feas modes spacing = Outcome.served m p) :
+    p = own m ∧ m ∈ modes ∧ fits spacing m = true ∧ FeasOwn feas m ∧
+    ∀ m' ∈ modes, fits spacing m' = true → FeasOwn feas m' →
+      ¬ (m'.baud > m.baud ∨ (m'.baud = m.baud ∧ m'.bitRate > m.bitRate)) := by
+  unfold selectMode at h
+  simp only at h
+  cases hf : (modeOrder modes spacing).find? (fun m => feas (own m) m) with
+  | none =>
+    rw [hf] at h
+    cases hl : (modeOrder modes spacing).getLast? <;> rw [hl] at h <;> simp at h
+  | some m0 =>
+    rw [hf] at h
+    simp only [Outcome.served.injEq] at h
+    obtain ⟨rfl, rfl⟩ := h
+    obtain ⟨hfe, as, bs, hsplit, hnot⟩ := List.find?_eq_some_iff_append.1 hf
+    have hmem : m0 ∈ modeOrder modes spacing := by rw [hsplit]; simp
+    have hm := (mem_modeOrder modes spacing m0).1 hmem
+    refine ⟨rfl, hm.1, hm.2, by simpa [FeasOwn] using hfe, ?_⟩
+    intro m' hm' hfit hfeas hgt
+    have hmem' : m' ∈ modeOrder modes spacing := (mem_modeOrder modes spacing m').2 ⟨hm', hfit⟩
+    have hsorted := modeOrder_sorted modes spacing
+    rw [hsplit] at hmem' hsorted
+    rcases List.mem_append.1 hmem' with hin | hin
+    · have := hnot m' hin
+      simp only [FeasOwn] at hfeas
+      simp [hfeas] at this
+    · rcases List.mem_cons.1 hin with hin | hin
+      · subst hin; omega
+      · have hp := (List.pairwise_append.1 hsorted).2.1
+        have := (List.pairwise_cons.1 hp).1 m' hin
+        unfold RateGe at this
+        omega
+
+/-- **none_feasible_reason.** The loop answers NO_FEASIBLE_BAUDRATE_WITH_SPACING iff no library mode fits the
+spacing, and NO_FEASIBLE_MODE iff some mode fits but none of the fitting modes is feasible on its own propagation;
+the mode it then reports is a fitting library mode with its own propagation. -/
+theorem none_feasible_reason (feas : (Int × Int) → Mode → Bool) (modes : List Mode) (spacing : Int) :
+    (selectMode feas modes spacing = Outcome.noBaud ↔ ∀ m ∈ modes, fits spacing m = false) ∧
+    ((∃ l p, selectMode feas modes spacing = Outcome.noFeasibleMode l p) ↔
+      (∃ m ∈ modes, fits spacing m = true) ∧ ∀ m ∈ modes, fits spacing m = true → ¬ FeasOwn feas m) ∧
+    (∀ l p, selectMode feas modes spacing = Outcome.noFeasibleMode l p →
+      l ∈ modes ∧ fits spacing l = true ∧ p = own l) := by
+  have hnil : modeOrder modes spacing = [] ↔ ∀ m ∈ modes, fits spacing m = false := by
+    rw [List.eq_nil_iff_forall_not_mem]
+    constructor
+    · intro h m hm
+      by_contra hc
+      exact h m ((mem_modeOrder modes spacing m).2 ⟨hm, by simpa using hc⟩)
+    · intro h m hm
+      have := (mem_modeOrder modes spacing m).1 hm
+      rw [h m this.1] at this; simp at this
+  have hfind : (modeOrder modes spacing).find? (fun m => feas (own m) m) = none ↔
+      ∀ m ∈ modes, fits spacing m = true → ¬ FeasOwn feas m := by
+    rw [List.find?_eq_none]
+    constructor
+    · intro h m hm hfit; simpa [FeasOwn] using h m ((mem_modeOrder modes spacing m).2 ⟨hm, hfit⟩)
+    · intro h m hm
+      have := (mem_modeOrder modes spacing m).1 hm
+      simpa [FeasOwn] using h m this.1 this.2
+  refine ⟨?_, ?_, ?_⟩
+  · unfold selectMode
+    simp only
+    constructor
+    · intro h
+      cases hf : (modeOrder modes spacing).find? (fun m => feas (own m) m) with
+      | some m0 => rw [hf] at h; simp at h
+      | none =>
+        rw [hf] at h
+        cases hl : (modeOrder modes spacing).getLast? with
+        | some l => rw [hl] at h; simp at h
+        | none => exact hnil.1 (List.getLast?_eq_none_iff.1 hl)
+    · intro h
+      have := hnil.2 h
+      rw [this]; rfl
+  · unfold selectMode
+    simp only
+    constructor
+    · rintro ⟨l, p, h⟩
+      cases hf : (modeOrder modes spacing).find? (fun m => feas (own m) m) with
+      | some m0 => rw [hf] at h; simp at h
+      | none =>
+        rw [hf] at h
+        cases hl : (modeOrder modes spacing).getLast? with
+        | none => rw [hl] at h; simp at h
+        | some l0 =>
+          have hmem := List.mem_of_getLast? hl
+          have := (mem_modeOrder modes spacing l0).1 hmem
+          exact ⟨⟨l0, this.1, this.2⟩, hfind.1 hf⟩
+    · rintro ⟨⟨m, hm, hfit⟩, hnone⟩
+      rw [hfind.2 hnone]
+      have hne : modeOrder modes spacing ≠ [] := by
+        intro hc; have := hnil.1 hc m hm; rw [this] at hfit; simp at hfit
+      cases hl : (modeOrder modes spacing).getLast? with
+      | none => exact absurd (List.getLast?_eq_none_iff.1 hl) hne
+      | some l0 => exact ⟨l0, own l0, rfl⟩
+  · intro l p h
+    unfold selectMode at h
+    simp only at h
+    cases hf : (modeOrder modes spacing).find? (fun m => feas (own m) m) with
+    | some m0 => rw [hf] at h; simp at h
+    | none =>
+      rw [hf] at h
+      cases hl : (modeOrder modes spacing).getLast? with
+      | none => rw [hl] at h; simp at h
+      | some l0 =>
+        rw [hl] at h
+        simp only [Outcome.noFeasibleMode.injEq] at h
+        obtain ⟨rfl, rfl⟩ := h
+        have := (mem_modeOrder modes spacing l0).1 (List.mem_of_getLast? hl)
+        exact ⟨this.1, this.2, rfl⟩
+
+/-- request-level reason after automatic selection -/
+theorem autoReason_spec (o : Outcome) (b r : Bool) :
+    (autoReason o b r = Reason.none ↔ (∃ m p, o = Outcome.served m p) ∧ (b = true → r = true)) := by
+  cases o <;> cases b <;> cases r <;> simp [autoReason]
+
+/-- **request-level statement, fixed mode**: the request is reported feasible iff on the computed path — and on the
+reverse path when bidirectional — no channel has an infinite penalty and the worst channel's GSNR(0.1 nm) minus
+penalties, rounded to two decimals, is at least OSNR + margin -/
+theorem request_verdict_iff (fwd rev : Option ℝ) (osnr margin : ℝ) (bidir : Bool) :
+    fixedReason (passFixed fwd osnr margin) bidir (passFixed rev osnr margin) = Reason.none ↔
+      (∃ v, fwd = some v ∧ osnr + margin ≤ round2 v) ∧
+      (bidir = true → ∃ w, rev = some w ∧ osnr + margin ≤ round2 w) := by
+  rw [(fixedReason_spec _ _ _).1, passFixed_iff, passFixed_iff]
+
+/-- the propagation whose figures are reported for a served request is one on which the selected mode passes -/
+theorem selectMode_served_feasible (feas : (Int × Int) → Mode → Bool) (modes : List Mode) (spacing : Int) (m : Mode)
+    (p : Int × Int) (h : selectMode feas modes spacing = Outcome.served m p) : feas p m = true := by
+  obtain ⟨hp, _, _, hf, _⟩ := selectMode_spec feas modes spacing m p h
+  rw [hp]; exact hf
+
+/-- a request document is accepted iff its transceiver type is known and, when a mode is named, the mode exists,
+its baud rate does not exceed its min_spacing and the requested spacing is at least that min_spacing; otherwise the
+error kind is the stated one -/
+theorem requestCheck_spec (k g f : Bool) (baud ms sp : Int) :
+    (requestCheck k g f baud ms sp = none ↔ k = true ∧ (g = true → f = true ∧ baud ≤ ms ∧ ms ≤ sp)) ∧
+    (requestCheck k g f baud ms sp = some "ServiceError" ↔ k = true ∧ g = true ∧ f = true ∧ baud ≤ ms ∧ sp < ms) := by
+  unfold requestCheck
+  cases k <;> cases g <;> cases f <;> simp <;> (try split) <;> (try split) <;> simp_all <;> omega
+
+/-! ### finding F9 (fixed in /repo as 5d202380): the loop as it was does not satisfy `selectMode_spec` -/
+
+def f9A : Mode := { id := 0, baud := 32, bitRate := 200, minSpacing := 50, offset := 0 }
+def f9B : Mode := { id := 1, baud := 32, bitRate := 100, minSpacing := 50, offset := 3 }
+/-- A passes only on its own propagation (offset 0); B passes everywhere -/
+def f9Feas (p : Int × Int) (m : Mode) : Bool := if m.id = 0 then decide (p.2 = 0) else true
+
+/-- with two modes of one baud rate and different offsets the old loop judged A on B's propagation: it
+returns B (100G) although A (200G) is feasible on its own propagation; the repaired loop returns A -/
+theorem selectMode_fails_old :
+    selectModeOld f9Feas [f9A, f9B] 50 = Outcome.served f9B (32, 3) ∧
+    FeasOwn f9Feas f9A ∧ f9A.bitRate > f9B.bitRate ∧
+    selectMode f9Feas [f9A, f9B] 50 = Outcome.served f9A (32, 0) := by
+  refine ⟨by decide, by unfold FeasOwn; decide, by decide, by decide⟩
+
+/-- conversely the old loop could serve a mode that is NOT feasible on its own propagation (and report the other
+propagation's figures): here A passes only on B's propagation -/
+theorem selectModeOld_accepts_infeasible :
+    selectModeOld (fun p m => if m.id = 0 then decide (p.2 = 3) else false) [f9A, f9B] 50
+      = Outcome.served f9A (32, 3) ∧
+    ¬ FeasOwn (fun p m => if m.id = 0 then decide (p.2 = 3) else false) f9A := by
+  refine ⟨by decide, by unfold FeasOwn; decide⟩
+
+/-! ### non-vacuity -/
+example : passFixed (some (27.262 : ℝ)) 24.9 2 = true := by
+  rw [(verdict_margin 27.262 24.9 2).1]; norm_num
+example : linSum [some (41 : ℝ), none, some 40] = db2lin (-41) + (db2lin (-40) + 0) := by simp [linSum]
+example : selectMode f9Feas [f9A, f9B] 50 = Outcome.served f9A (32, 0) := by decide
+example : (normalise [((4000:ℝ), (0:ℝ)), (10000, 1.5)]).head? = some (0, 0) :=
+  ((penalty_normalised _).2.1 (by intro e he; simp at he; rcases he with rfl | rfl <;> norm_num)).2
+
+end Gnpy.Verdict
